@@ -2,6 +2,7 @@
 #include <PhQ/ConstitutiveModel/CompressibleNewtonianFluid.hpp>
 #include <PhQ/ConstitutiveModel/ElasticIsotropicSolid.hpp>
 #include <PhQ/ConstitutiveModel/IncompressibleNewtonianFluid.hpp>
+#include <memory>
 #include <set>
 #include <unordered_set>
 #include "engine.hpp"
@@ -286,6 +287,96 @@ static Verdict c14_model(const Case& c) {
   return nt == 0 ? c14_model_t<float>(nt, cls, a, b) : nt == 1 ? c14_model_t<double>(nt, cls, a, b) : c14_model_t<long double>(nt, cls, a, b);
 }
 
+// ================================================================================================ histories of one model object (C12, C13)
+// A constitutive model is a value: what it answers depends only on the material it currently holds, not on what the object was asked or assigned before.
+// Operations on one object: forward query (stress), inverse query (strain / strain rate), copy-assignment and move-assignment of another material,
+// continuing with a copy-constructed / move-constructed object, queries through const ConstitutiveModel&.  Oracle: after every step each query returns,
+// bit for bit, what a freshly constructed model of the current material returns, the accessors agree, and the object compares equal to the fresh one.
+template <int CLS, class T> struct ModelOf;
+template <class T> struct ModelOf<0, T> { using M = ConstitutiveModel::ElasticIsotropicSolid<T>; static M make(LD a, LD b) { return M(PhQ::ShearModulus<T>((T)a, Pa), PhQ::LameFirstModulus<T>((T)b, Pa)); }
+  static void acc(const M& m, LD* o) { o[0] = m.ShearModulus().Value(); o[1] = m.LameFirstModulus().Value(); } static constexpr const char* name = "ElasticIsotropicSolid"; };
+template <class T> struct ModelOf<1, T> { using M = ConstitutiveModel::IncompressibleNewtonianFluid<T>; static M make(LD a, LD) { return M(PhQ::DynamicViscosity<T>((T)a, PaS)); }
+  static void acc(const M& m, LD* o) { o[0] = m.DynamicViscosity().Value(); o[1] = 0; } static constexpr const char* name = "IncompressibleNewtonianFluid"; };
+template <class T> struct ModelOf<2, T> { using M = ConstitutiveModel::CompressibleNewtonianFluid<T>; static M make(LD a, LD b) { return M(PhQ::DynamicViscosity<T>((T)a, PaS), PhQ::BulkDynamicViscosity<T>((T)b, PaS)); }
+  static void acc(const M& m, LD* o) { o[0] = m.DynamicViscosity().Value(); o[1] = m.BulkDynamicViscosity().Value(); } static constexpr const char* name = "CompressibleNewtonianFluid"; };
+template <int CLS, class TA, class MB> static void model_forward(const MB& m, const LD* t, LD* o) {
+  if constexpr (CLS == 0) fl6(m.Stress(PhQ::Strain<TA>(sd<TA>(t))).Value(), o); else fl6(m.Stress(PhQ::StrainRate<TA>(sd<TA>(t), Hz)).Value(), o);
+}
+template <int CLS, class TA, class MB> static void model_inverse(const MB& m, const LD* t, LD* o) {
+  if constexpr (CLS == 0) fl6(m.Strain(PhQ::Stress<TA>(sd<TA>(t), Pa)).Value(), o); else fl6(m.StrainRate(PhQ::Stress<TA>(sd<TA>(t), Pa)).Value(), o);
+}
+template <int CLS, class T, class TA> static Verdict model_history_t(int ntm, int nta, const Case& c) {
+  using MO = ModelOf<CLS, T>; using M = typename MO::M;
+  const LD* mat = &c.r[0]; const LD* t1 = &c.r[6]; const LD* t2 = &c.r[12];
+  int cur = 0; auto obj = std::make_unique<M>(MO::make(mat[0], mat[1]));
+  std::string trace = fmt("%s<%s> m(%s, %s)", MO::name, ntinfo(ntm).name, decld(mat[0]).c_str(), decld(mat[1]).c_str());
+  bool queried = false, reassigned_after_query = false, queried_after = false;
+  auto check = [&](const char* what, const LD* got, const LD* want, int n) -> std::string {
+    for (int i = 0; i < n; i++) if (!same_bits(nta, got[i], want[i]) && !(got[i] != got[i] && want[i] != want[i]))
+      return fmt("after [%s] %s component %d is %s, a freshly constructed model of the current material (%s, %s) gives %s [argument type %s]", trace.c_str(), what, i, hexld(got[i]).c_str(), decld(mat[2 * cur]).c_str(), decld(mat[2 * cur + 1]).c_str(), hexld(want[i]).c_str(), ntinfo(nta).name);
+    return "";
+  };
+  const size_t nops = c.i.size() - 3;
+  for (size_t j = 0; j <= nops; j++) {
+    const int op = j < nops ? (int)(c.i[3 + j] % 8) : 0, k = j < nops ? (int)((c.i[3 + j] / 8) % 3) : 0;
+    const bool final_probe = j == nops;
+    const M fresh = MO::make(mat[2 * cur], mat[2 * cur + 1]);
+    LD got[6], want[6]; std::string m;
+    if (final_probe || op == 0 || op == 5) {
+      const ConstitutiveModel& base = *obj; const ConstitutiveModel& fbase = fresh;
+      if (op == 5 && !final_probe) { model_forward<CLS, TA>(base, t1, got); model_forward<CLS, TA>(fbase, t1, want); trace += "; forward query through the interface"; }
+      else { model_forward<CLS, TA>(*obj, t1, got); model_forward<CLS, TA>(fresh, t1, want); trace += "; forward query"; }
+      m = check("the forward map", got, want, 6); if (!m.empty()) return Verdict::fail(m);
+      if (reassigned_after_query) queried_after = true; queried = true;
+    }
+    if (final_probe || op == 1 || op == 6) {
+      const ConstitutiveModel& base = *obj; const ConstitutiveModel& fbase = fresh;
+      if (op == 6 && !final_probe) { model_inverse<CLS, TA>(base, t2, got); model_inverse<CLS, TA>(fbase, t2, want); trace += "; inverse query through the interface"; }
+      else { model_inverse<CLS, TA>(*obj, t2, got); model_inverse<CLS, TA>(fresh, t2, want); trace += "; inverse query"; }
+      m = check("the inverse map", got, want, 6); if (!m.empty()) return Verdict::fail(m);
+      if (reassigned_after_query) queried_after = true; queried = true;
+    }
+    if (final_probe) {
+      LD a[2], f[2]; MO::acc(*obj, a); MO::acc(fresh, f);
+      for (int i = 0; i < 2; i++) if (!same_bits(ntm, a[i], f[i])) return Verdict::fail(fmt("after [%s] accessor %d reports %s, the current material has %s", trace.c_str(), i, hexld(a[i]).c_str(), hexld(f[i]).c_str()));
+      if (!(*obj == fresh) || *obj != fresh || *obj < fresh || fresh < *obj) return Verdict::fail(fmt("after [%s] the object does not compare equal to a freshly constructed model of the same material", trace.c_str()));
+      if (std::hash<M>()(*obj) != std::hash<M>()(fresh)) return Verdict::fail(fmt("after [%s] the object hashes differently from a freshly constructed model of the same material", trace.c_str()));
+      break;
+    }
+    switch (op) {
+      case 2: { const M other = MO::make(mat[2 * k], mat[2 * k + 1]); *obj = other; trace += fmt("; copy-assign (%s, %s)", decld(mat[2 * k]).c_str(), decld(mat[2 * k + 1]).c_str()); if (queried && k != cur) reassigned_after_query = true; cur = k; break; }
+      case 3: { *obj = MO::make(mat[2 * k], mat[2 * k + 1]); trace += fmt("; move-assign (%s, %s)", decld(mat[2 * k]).c_str(), decld(mat[2 * k + 1]).c_str()); if (queried && k != cur) reassigned_after_query = true; cur = k; break; }
+      case 4: { auto copy = std::make_unique<M>(*obj); obj = std::move(copy); trace += "; continue with a copy-constructed object"; break; }
+      case 7: { auto moved = std::make_unique<M>(std::move(*obj)); obj = std::move(moved); trace += "; continue with a move-constructed object"; break; }
+      default: break;
+    }
+  }
+  Verdict V; V.cls = std::string(MO::name) + "<" + ntinfo(ntm).name + ">/arg<" + ntinfo(nta).name + ">" + (queried_after ? ";query-after-reassignment-after-query" : ";no-such-pattern");
+  V.nontrivial = queried_after; V.sub_evals = (long)nops + 1; V.sub_nontrivial = queried_after ? (long)nops + 1 : 0;
+  return V;
+}
+template <int CLS> static Verdict model_history(const Case& c) {
+  const int ntm = (int)c.i[0], nta = (int)c.i[1];
+#define VF_D(A, B, TA_, TB_) if (ntm == A && nta == B) return model_history_t<CLS, TA_, TB_>(ntm, nta, c);
+  VF_D(0, 0, float, float) VF_D(0, 1, float, double) VF_D(0, 2, float, long double) VF_D(1, 0, double, float) VF_D(1, 1, double, double) VF_D(1, 2, double, long double)
+  VF_D(2, 0, long double, float) VF_D(2, 1, long double, double) VF_D(2, 2, long double, long double)
+#undef VF_D
+  return Verdict::skip("bad-instance");
+}
+static Verdict model_history_any(const Case& c) { const int cls = (int)c.i[2]; return cls == 0 ? model_history<0>(c) : cls == 1 ? model_history<1>(c) : model_history<2>(c); }
+// materials: three (a, b) pairs; solids: admissible (mu, lambda); fluids: positive viscosities
+static rc::Gen<Case> gen_model_history(int ntm, int nta, int cls) {
+  const int nmin = ntinfo(ntm).mant < ntinfo(nta).mant ? ntm : nta; const int w = nmin == 0 ? 10 : 20;
+  auto mats = cls == 0 ? rc::gen::map(rc::gen::tuple(gen_material(ntm), gen_material(ntm), gen_material(ntm)), [](const std::tuple<std::vector<LD>, std::vector<LD>, std::vector<LD>>& t) {
+                std::vector<LD> v = std::get<0>(t); v.insert(v.end(), std::get<1>(t).begin(), std::get<1>(t).end()); v.insert(v.end(), std::get<2>(t).begin(), std::get<2>(t).end()); return v; })
+                       : gen_reals(6, ntm, -w, w, 0);
+  return rc::gen::map(rc::gen::tuple(mats, gen_reals(12, nta, -w, w, kNeg), rc::gen::container<std::vector<int>>(10, irange(0, 23)), irange(2, 10)),
+                      [=](const std::tuple<std::vector<LD>, std::vector<LD>, std::vector<int>, int>& t) {
+                        Case c; c.i = {ntm, nta, cls}; c.r = std::get<0>(t); c.r.insert(c.r.end(), std::get<1>(t).begin(), std::get<1>(t).end());
+                        for (int j = 0; j < std::get<3>(t); j++) c.i.push_back(std::get<2>(t)[(size_t)j]);
+                        return c; });
+}
+
 int main(int argc, char** argv) {
   std::vector<Sub> subs;
   {
@@ -336,6 +427,23 @@ int main(int argc, char** argv) {
       auto val = rc::gen::oneOf(rc::gen::element<LD>(-inf, -1, -(LD)0, (LD)0, 1, 2, inf, std::ldexp((LD)1, ntinfo(nt).emin)), gen_real(nt, -4, 4, kNeg | kZero));
       return rc::gen::map(rc::gen::tuple(rc::gen::container<std::vector<LD>>(4, val), irange(0, 2)), [=](const std::tuple<std::vector<LD>, int>& t) { Case c; c.i = {nt, cls}; c.r = std::get<0>(t); if (std::get<1>(t) >= 1) c.r[2] = c.r[0]; if (std::get<1>(t) == 2) c.r[3] = c.r[1]; return c; }); };
     s.rule = "the three constitutive model classes x 3 numeric types: six comparison operators = lexicographic comparison of the stored moduli in declared order, equal => equal hash, std::set / std::unordered_set; non-trivial: tie in the first modulus";
+    subs.push_back(s);
+  }
+  {
+    Sub s; s.name = "c12.history"; s.property = "C12"; s.instances = 9; s.n_quick = 4000; s.n_thorough = 100000; s.run = model_history_any;
+    s.gen = [](int inst) { return gen_model_history(inst / 3, inst % 3, 0); };
+    s.instance_name = [](int inst) { return std::string("model<") + ntinfo(inst / 3).name + ">/arg<" + ntinfo(inst % 3).name + ">"; };
+    s.rule = "stateful: histories of 2..10 operations on ONE model object (stress query, strain query, the same through const ConstitutiveModel&, copy-assignment / move-assignment of one of three generated materials, continuing with a "
+             "copy- / move-constructed object); oracle after every query and at the end: bit-identical to a freshly constructed model of the current material, accessors, ==, <, hash agree; non-trivial: a query, then an assignment of a "
+             "different material, then a query";
+    subs.push_back(s);
+  }
+  {
+    Sub s; s.name = "c13.history"; s.property = "C13"; s.instances = 18; s.n_quick = 3000; s.n_thorough = 60000; s.run = model_history_any;
+    s.gen = [](int inst) { return gen_model_history((inst / 3) % 3, inst % 3, 1 + inst / 9); };
+    s.instance_name = [](int inst) { return std::string(inst / 9 ? "Compressible<" : "Incompressible<") + ntinfo((inst / 3) % 3).name + ">/arg<" + ntinfo(inst % 3).name + ">"; };
+    s.rule = "stateful: the same histories (stress query, strain-rate query, interface queries, copy- / move-assignment, copy- / move-construction) on one fluid model object of either class; oracle: bit-identical to a freshly "
+             "constructed model of the current viscosities after every step; non-trivial: query, reassignment of different viscosities, query";
     subs.push_back(s);
   }
   return engine_main(argc, argv, subs);
